@@ -802,3 +802,41 @@ def _range_next(ip, st, t, a, rt):
         I.write_lv(a[0].lv, I.St(r.adt, r.variant, {'start': s0 + 1, 'end': e0}, r.base))
         return I.some(s0)
     return I.NONE
+
+
+# --- integer abs / min / max -------------------------------------------------------------------------
+@regx(r'^core::num::<impl (i8|i16|i32|i64|isize)>::abs$')
+def _iabs(ip, st, t, a, rt):
+    return nf.fn_abs(a[0])
+
+
+@reg('std::cmp::Ord::max', 'core::cmp::Ord::max', 'std::cmp::max')
+def _omax(ip, st, t, a, rt):
+    if isinstance(a[0], RF) and isinstance(a[1], RF):
+        return nf.fn_max(a[0], a[1])
+    return NotImplemented
+
+
+@reg('std::cmp::Ord::min', 'core::cmp::Ord::min', 'std::cmp::min')
+def _omin(ip, st, t, a, rt):
+    if isinstance(a[0], RF) and isinstance(a[1], RF):
+        return nf.fn_min(a[0], a[1])
+    return NotImplemented
+
+
+# --- comparisons of exact integers / scalars through the comparison traits ---------------------------------
+def _cmp_handler(op):
+    def h(ip, st, t, a, rt):
+        x, y = deref(a[0]), deref(a[1])
+        if isinstance(x, RF) and isinstance(y, RF):
+            return I.b_cmp(op, x, y)
+        return NotImplemented
+    return h
+
+
+for _n, _op in (('gt', '>'), ('lt', '<'), ('ge', '>='), ('le', '<=')):
+    H['std::cmp::PartialOrd::' + _n] = _cmp_handler(_op)
+    H['core::cmp::PartialOrd::' + _n] = _cmp_handler(_op)
+for _n, _op in (('eq', '=='), ('ne', '!=')):
+    H['std::cmp::PartialEq::' + _n] = _cmp_handler(_op)
+    H['core::cmp::PartialEq::' + _n] = _cmp_handler(_op)
